@@ -553,7 +553,7 @@ class Project:
                     except ProcessLookupError:
                         pass
                 so, se = procs[k].communicate()
-            out[k] = [procs[k].returncode, se.decode('utf-8', 'replace'), [], to]
+            out[k] = [procs[k].returncode, se.decode('utf-8', 'replace'), [], to, so.decode('utf-8', 'replace')]
         for k in (0, 1):
             self.wait_quiet(procs[k].pid)
             if os.path.exists(logs[k]):
@@ -898,6 +898,11 @@ def replay_group(prog, alts, root, bindir, trace=None, log_mode=None, jflag=None
             # behind must be those of one specification behaviour
             argvs, cwds, extras = [], [], []
             for c in (step['c1'], step['c2']):
+                if c['kind'] in ('ood', 'targets', 'sources'):
+                    argvs.append(['redo-' + c['kind']])
+                    cwds.append(c.get('cwd', ''))
+                    extras.append({})
+                    continue
                 argv = ['redo-ifchange' if c['kind'] == 'ifchange' else 'redo']
                 if c['keep'] and c['kind'] == 'redo':
                     argv.append('-k')
@@ -926,6 +931,11 @@ def replay_group(prog, alts, root, bindir, trace=None, log_mode=None, jflag=None
                         diffs.append('exit status of command %d: have %s, spec says %s' % (k + 1, res[k][0], st[key]['rc']))
                     if sorted(res[k][2]) != sorted(st[key]['ran']) and want_cat('ran'):
                         diffs.append('scripts run by command %d: have %s, spec says %s' % (k + 1, res[k][2], list(st[key]['ran'])))
+                    if step[key]['kind'] in ('ood', 'targets', 'sources'):
+                        got = sorted(os.path.normpath(os.path.join(step[key].get('cwd', ''), x)) for x in res[k][4].split('\n') if x)
+                        if got != sorted(st[key].get('out') or []):
+                            diffs.append('output of redo-%s (command %d): have %s, spec says %s'
+                                         % (step[key]['kind'], k + 1, got, sorted(st[key].get('out') or [])))
                 diffs += [txt for (cat, txt) in pj.compare(snap, st['snap']) if want_cat(cat)]
                 if not diffs:
                     nxt.append(h)
